@@ -501,7 +501,7 @@ def mk_case(cid, fam, spec, toks, data, path):
 
 def gen_cases(rng, tier, tmpdir):
     cases = []
-    nfile, nwrite, nmem = (320, 160, 30) if tier == "quick" else (9000, 4500, 1200)
+    nfile, nwrite, nmem = (260, 130, 24) if tier == "quick" else (6000, 3000, 600)
     i = 0
     # fixed boundary cases first
     fixed = [
@@ -518,6 +518,14 @@ def gen_cases(rng, tier, tmpdir):
         else:
             toks = [("po",), ("pb",), ("ae",)] + [("gb",)] * (len(data) + 1) + [("po",), ("es",), ("pb",), ("gb",), ("es",), ("po",), ("gb",)]
         cases.append(("file", {"ty": ty, "eof": eof, "repos": True}, toks, data))
+    # files larger than the reader's 8 KiB chunk: the position must account for what is buffered
+    big = ("abcdefg\n" * 700 + "h\u00e9\u20ac\n" * 900).encode()
+    for eof in ("eof_code", "reset"):
+        toks = [("n", 10), ("po",), ("gc",), ("po",), ("pc",), ("n", 5000), ("po",), ("gk",), ("po",), ("sp", 8190), ("gc",), ("po",),
+                ("n", 9000), ("po",), ("es",), ("gc",), ("es",), ("gc",), ("po",)]
+        cases.append(("file", {"ty": "text", "eof": eof, "repos": True}, toks, big))
+    cases.append(("file", {"ty": "binary", "eof": "eof_code", "repos": True},
+                  [("gb",), ("po",), ("n", 300), ("po",), ("pb",), ("gb",), ("po",), ("sp", 8190), ("gb",), ("gb",), ("gb",), ("po",), ("sp", 3), ("gb",), ("po",)], bytes(range(256)) * 40))
     for _ in range(nfile):
         x = rng.random()
         terms = False
